@@ -233,10 +233,16 @@ def _run_job(name):
 
 
 # ------------------------------------------------------------------------------------------------
+C12_THOROUGH_ONLY = ("c08_", "c09_", "c11_tree", "c20_", "c01_hist", "c10_symlink_l3", "c10_symlink_deep", "c06_copy", "c03_mem_copy")
+
+
 def run(prop, tier, logdir, only=None):
     from . import e2_jobs, e2_validate  # noqa: F401  (register jobs)
     tiers = ("quick",) if tier == "quick" else ("quick", "thorough")
     todo = [j for j in JOBS.values() if prop in j["props"] and j["tier"] in tiers]
+    if prop == "C12" and tier == "quick":
+        # the panic obligations of the heavy traversal / copy / macro / history units are part of C12's thorough tier only
+        todo = [j for j in todo if not j["name"].startswith(C12_THOROUGH_ONLY)]
     if only:
         todo = [j for j in todo if j["name"] in only]
     if not todo:
@@ -257,7 +263,7 @@ def run(prop, tier, logdir, only=None):
         global _CTX, _PROP
         _CTX, _PROP = ctx, prop
         todo.sort(key=lambda j: -j.get("weight", 1))
-        workers = min(len(todo), int(os.environ.get("VERIF_E2_JOBS", "6")))
+        workers = min(len(todo), int(os.environ.get("VERIF_E2_JOBS", "10")))
         if workers <= 1:
             res = [_run_job(j["name"]) for j in todo]
         else:
